@@ -484,6 +484,48 @@ theorem c12_userinfo_only (cfg : Cfg) (now : Clock) (tok : Artefact) (u : Str)
   obtain ⟨hv, _, h1, h2, h3, _, h5⟩ := acceptAccess_ok h
   exact ⟨verifies_signed hv, h2, h1, h3, h5⟩
 
+/-- the same as the Boolean predicate the judge evaluates on every userinfo answer -/
+theorem c12_userinfo_pred (cfg : Cfg) (now : Clock) (tok : Artefact) (u : Str)
+    (h : userinfo cfg now tok = .ok u) : userinfoAllowed cfg now tok u = true := by
+  obtain ⟨h1, h2, h3, h4, h5⟩ := c12_userinfo_only cfg now tok u h
+  simp [userinfoAllowed, h1, h2, h3, h4, h5]
+
+/-! ### a credential before and after its expiry (round 5) -/
+
+/-- **No grace period for a code.** Whatever else is right about the request — client, secret or verifier,
+redirect, signature —, from the first second after the code's `exp` on the token endpoint releases
+nothing; presented at any second up to and including `exp` the expiry test is not what refuses it
+(`c12_release_explicit` has `now ≤ exp` as a *necessary* conjunct; this is its contrapositive, stated for
+all later moments at once). -/
+theorem c12_code_after_expiry (cfg : Cfg) (now : Clock) (r : TokenReq)
+    (hexp : gInt r.code.claims .exp < now.sec) : ∀ idt acc, token cfg now r ≠ .ok (idt, acc) := by
+  intro idt acc h
+  obtain ⟨_, _, _, _, _, _, _, _, _, hle, _, _⟩ := c12_release_explicit cfg now r idt acc h
+  omega
+
+/-- **No grace period for an access token.** From the first second after its `exp` an access token makes
+userinfo answer for nobody. -/
+theorem c12_access_after_expiry (cfg : Cfg) (now : Clock) (tok : Artefact)
+    (hexp : gInt tok.claims .exp < now.sec) : ∀ u, userinfo cfg now tok ≠ .ok u := by
+  intro u h
+  obtain ⟨_, _, hle, _, _⟩ := c12_userinfo_only cfg now tok u h
+  omega
+
+/-- **The same code at two moments.** If a code is redeemed at `now2`, then the same request at any earlier
+moment `now1` was redeemable as well: the only time-dependent test is the expiry, so a code never
+"becomes valid" later and there is exactly one instant — `exp` — after which it stops working. -/
+theorem c12_code_expiry_is_the_only_clock (cfg : Cfg) (now1 now2 : Clock) (r : TokenReq) (idt acc : Wire)
+    (hle : now1.sec ≤ now2.sec) (h : token cfg now2 r = .ok (idt, acc)) : releasable cfg now1 r = true := by
+  have h2 := c12_release cfg now2 r idt acc h
+  unfold releasable at h2 ⊢
+  split at h2
+  · exact h2
+  · split at h2
+    · exact h2
+    · simp only [Bool.and_eq_true, decide_eq_true_eq] at h2 ⊢
+      obtain ⟨⟨⟨⟨⟨a, b⟩, c⟩, d⟩, e⟩, f⟩ := h2
+      exact ⟨⟨⟨⟨⟨a, b⟩, c⟩, by omega⟩, e⟩, f⟩
+
 /-! ### the published JWKS -/
 
 /-- **JWKS.** Whatever kind of key the deployment signs with (RSA, P-256, P-384, P-521, Ed25519 —
